@@ -125,7 +125,7 @@ impl Parser {
                             self.state = EngineState::ParseAnsiMusic(MusicState::Note(n, len));
                         }
                         '.' => {
-                            let len = len * 3 / 2;
+                            let len = len.saturating_mul(3) / 2;
                             self.state = EngineState::ParseAnsiMusic(MusicState::Note(n, len));
                             self.dotted_note = true;
                         }
@@ -133,8 +133,8 @@ impl Parser {
                             self.state = EngineState::ParseAnsiMusic(MusicState::Default);
                             let len = if len == 0 { self.cur_length } else { len };
                             self.cur_music.as_mut().unwrap().music_actions.push(MusicAction::PlayNote(
-                                FREQ[n + (self.cur_octave * 12)],
-                                self.cur_tempo * len,
+                                FREQ[(n + (self.cur_octave * 12)).min(FREQ.len() - 1)],
+                                self.cur_tempo.saturating_mul(len),
                                 self.dotted_note,
                             ));
                             self.dotted_note = false;
@@ -148,7 +148,7 @@ impl Parser {
                         x = parse_next_number(x, ch as u8);
                         self.state = EngineState::ParseAnsiMusic(MusicState::SetLength(x));
                     } else if ch == '.' {
-                        x = x * 3 / 2;
+                        x = x.saturating_mul(3) / 2;
                         self.state = EngineState::ParseAnsiMusic(MusicState::SetLength(x));
                     } else {
                         self.cur_length = x.clamp(1, 64);
@@ -161,7 +161,7 @@ impl Parser {
                         x = parse_next_number(x, ch as u8);
                         self.state = EngineState::ParseAnsiMusic(MusicState::Pause(x));
                     } else if ch == '.' {
-                        x = x * 3 / 2;
+                        x = x.saturating_mul(3) / 2;
                         self.state = EngineState::ParseAnsiMusic(MusicState::Pause(x));
                     } else {
                         let pause = x.clamp(1, 64);
